@@ -633,3 +633,84 @@ def evaluate(case, ctx):
         r.nontrivial = "nt_C11" in r.classes
         return r
     raise AssertionError(pid)
+
+
+# ---------------------------------------------------------------------------
+# C11 enumerated part: all 2^5 criteria subsets for a single rule (+ fallback rule),
+# one client satisfying everything and one client failing exactly each criterion
+
+import itertools as _it
+import multiprocessing as _mp2
+
+CRIT = {"account": "al*", "address": "10.1.0.0/16", "username": "jo?", "hostname": "*.example.org", "xreply_ok": "bot.ex"}
+MASK_10_1 = [(0xffff << 32) | (10 << 24) | (1 << 16), 96 + 16]
+GOOD = {"account": "alice", "address": "10.1.2.3", "username": "joe", "hostname": "a.example.org", "xreply_ok": "OK"}
+BAD = {"account": "bob", "address": "10.2.0.1", "username": "jim", "hostname": "a.example.net", "xreply_ok": "AGAIN no"}
+
+
+def c11_enum_cases():
+    crits = sorted(CRIT)
+    for r in range(0, 6):
+        for sub in _it.combinations(crits, r):
+            for trust in (False, True):
+                f = {"class": "hit"}
+                for c in sub:
+                    f[c] = CRIT[c]
+                    if c == "address":
+                        f["_mask"] = MASK_10_1
+                if trust:
+                    f["trust_username"] = "true"
+                conf = {"modules": ["iauth_class", "iauth_xquery"], "services": [["login.ex", "login"], ["bot.ex", "dronecheck"]], "timeout": 0,
+                        "rules": [["r5", f], ["z9", {"class": "fallback"}]], "logs": [["*.>=info", "file:iauthd.log"]]}
+                for fail in (None,) + tuple(sub):
+                    v = dict(GOOD)
+                    if fail:
+                        v[fail] = BAD[fail]
+                    ident = ("~" + v["username"]) if trust and fail != "username" and "username" not in sub else v["username"]
+                    cid = 31
+                    ev = [["C", cid, v["address"], 5000], ["N", cid, v["hostname"]], ["u", cid, ident], ["n", cid, "Nick"],
+                          ["U", cid, "claimed", "real name"], ["P", cid, "+x %s pw" % v["account"]],
+                          ["X", cid, "login.ex", "OK %s:77" % v["account"], "cur"], ["X", cid, "bot.ex", v["xreply_ok"], "cur"]]
+                    yield {"conf": conf, "events": ev}
+
+
+def _c11_worker(args):
+    widx, nw = args
+    ctx = ep.make_context("C11", "quick", 200 + widx, {})
+    n = nt = 0
+    fails = []
+    samples = []
+    try:
+        for i, case in enumerate(c11_enum_cases()):
+            if i % nw != widx:
+                continue
+            r = ep.evaluate(case, ctx)
+            n += 1
+            nt += 1
+            if i % 61 == 0 and not samples:
+                samples.append(case)
+            for v in r.violations:
+                if v.pid == "C11" and len(fails) < 3:
+                    fails.append({"case": case, "sig": v.sig, "msg": v.msg})
+                    break
+    finally:
+        ep.close_context(ctx)
+    return n, nt, fails, samples
+
+
+def extra_phase(pid, tier, seed):
+    if pid != "C11":
+        return None
+    nw = vc.NCPU
+    with _mp2.get_context("fork").Pool(nw) as pool:
+        rs = pool.map(_c11_worker, [(w, nw) for w in range(nw)])
+    out = {"evaluations": 0, "nontrivial": 0, "fails": [], "classes": {}, "samples": [],
+           "exhaustive_scope": "all 32 criteria subsets of a single rule (with and without trust_username) followed by a catch-all rule; "
+                               "per subset one client satisfying everything and one client failing exactly each criterion"}
+    for n, nt, fails, samples in rs:
+        out["evaluations"] += n
+        out["nontrivial"] += nt
+        out["fails"].extend(fails)
+        out["samples"].extend(samples)
+    out["classes"]["enumerated_cases"] = out["evaluations"]
+    return out
